@@ -392,7 +392,8 @@ def setValues (now : DateTime) (s : PropState) (inp : Inp) : PropState × Outcom
   if inp.isEmptyInput then ({ s with values := [] }, .ok)
   else
     match convertValueInput inp with
-    | [] => (s, .raised .index)                              -- `new_value[0]`; not reachable
+    | [] => ({ s with values := [] }, .ok)                   -- `if len(new_value) == 0` (646f02a): other empty
+                                                             -- iterables; not reachable from `Inp`
     | v0 :: rest =>
       let d1 : DType := inferIfNone s.dtype v0
       let nv2 := importIfNeeded now d1 (v0 :: rest)
